@@ -19,8 +19,8 @@ ASSUMPTIONS = [
     "a client datagram never carries the empty destination string (wf_input; ParseUDPMessage rejects a zero-length address)",
 ]
 TRUSTED = ["modelled rather than verified: udpSessionEntry.Feed/checkAddr/initConn and the reply address stamp of core/server/udp.go "
-           "(hand transcription in coq/model/C08_UDPPolicy.v); the extras/outbounds ACL adapter is not part of this check "
-           "(its CheckUDP and UDP both call aclEngine.handle with ProtocolUDP: read, not run)"]
+           "(hand transcription in coq/model/C08_UDPPolicy.v); the extras/outbounds ACL engine + PluggableOutboundAdapter are not modelled: "
+           "a second harness stream checks on generated rule sets that CheckUDP(addr)==nil iff UDP(addr) succeeds with identical routing"]
 PER_SHARD = 25
 EXTRA_TARGETS = ["corr/C08_Corr.vo"]
 POOL = 401
@@ -198,14 +198,89 @@ def search(ctx, disagreeing):
     return found
 
 
+# ---- second stream: the real extras/outbounds ACL engine behind PluggableOutboundAdapter (no Coq model: the
+# harness verdict is "CheckUDP(addr)==nil iff UDP(addr) succeeds, both routed to the same outbound/address")
+GO_ACL = dict(module="extras", pkg="outbounds", pkgname="outbounds",
+              files={"zz_verif_c08acl_test.go": "c08acl/c08acl_test.go"}, run="TestVerifC08ACL")
+
+
+def gen_acl(rng, tier):
+    n = 40 if tier == "quick" else 600
+    hosts = ["a.example.com", "b.example.com", "example.org", "x.y.example.net", "1.2.3.4", "10.0.0.7", "[2001:db8::1]",
+             "8.8.8.8", "dns.google", "localhost"]
+    pats = ["all", "*.example.com", "suffix:example.com", "example.org", "1.2.3.0/24", "10.0.0.0/8", "2001:db8::/32",
+            "8.8.8.8", "*.google", "x.y.example.net"]
+    cases = []
+    for _ in range(n):
+        nob = rng.randint(1, 3)
+        obs = ["ob%d" % j for j in range(nob)]
+        allow = [rng.random() < 0.6 for _ in obs]
+        names = obs + ["reject", "direct", "default"]
+        if rng.random() < 0.3:
+            obs.append("direct")       # override the built-in direct (it would open real sockets)
+            allow.append(rng.random() < 0.5)
+        rules = []
+        for _ in range(rng.randint(1, 8)):
+            ob = rng.choice([x for x in names if x != "direct" or "direct" in obs])
+            pat = rng.choice(pats)
+            pp = rng.choice(["", "", ", udp", ", tcp", ", udp/53", ", tcp/53", ", udp/1-1000", ", */443", ", udp/443", ", tcp/443"])
+            hj = rng.choice(["", "", "", ", 9.9.9.9"]) if pp else ""
+            rules.append("%s(%s%s%s)" % (ob, pat, pp, hj))
+        if "direct" not in obs:
+            rules.append("%s(all)" % rng.choice(obs + ["reject"]))   # never fall through to the real direct outbound
+            if obs[0] == "default":
+                pass
+        addrs = ["%s:%d" % (rng.choice(hosts), rng.choice([53, 443, 80, 1000, 1001, 65535, 0])) for _ in range(12)]
+        addrs += ["noport.example.com", "a.example.com:99999", ":53", ""]
+        cases.append({"rules": "\n".join(rules), "obs": obs, "allow": allow, "addrs": addrs})
+    return cases
+
+
+def run_acl_stream(ctx):
+    import random
+    cases = gen_acl(random.Random(ctx.seed + 8), ctx.tier)
+    ok, outs, _, log = common.run_go_cases(ctx, GO_ACL, cases, tag="acl")
+    viol = []
+    if not ok:
+        ctx.say("Go harness (ACL stream) failed:\n" + log[-2000:])
+        viol.append({"what": "tie broken: ACL-stream harness for C08 did not build/run against the current tree (%s)" % log.strip()[-300:],
+                     "replay": {"broken": "go harness (acl stream)", "log": log[-3000:]}, "found_input": False, "fingerprint": None})
+    compiled = 0
+    for c, o in zip(cases, outs):
+        if "compile_error" not in o:
+            compiled += 1
+        if o.get("ok") is False:
+            viol.append({"what": "acl adapter: %s" % o.get("why"), "replay": {"acl_case": c, "impl": o}, "fingerprint": None,
+                         "found_input": True})
+    both = sum(1 for o in outs for v in o.get("verdicts", []) if v == 3)
+    neither = sum(1 for o in outs for v in o.get("verdicts", []) if v == 0)
+    ctx.say("ACL stream: %d rule sets (%d compiled), address verdicts allowed=%d refused=%d" % (len(cases), compiled, both, neither))
+    return viol, {"evaluations": len(cases), "compiled": compiled, "addresses_allowed": both, "addresses_refused": neither}
+
+
 def run(ctx):
     import sys
-    return common.run_case_check(ctx, sys.modules[__name__])
+    acl_viol, acl_cov = run_acl_stream(ctx)
+    orig = common.finish
+
+    def fin(ctx_, pinfo, cov, violations, assumptions, **kw):
+        cov = dict(cov)
+        cov["acl_adapter_stream"] = acl_cov
+        return orig(ctx_, pinfo, cov, list(violations) + acl_viol, assumptions, **kw)
+    common.finish = fin
+    try:
+        return common.run_case_check(ctx, sys.modules[__name__])
+    finally:
+        common.finish = orig
 
 
 def replay(ctx, path):
     import json
     r = json.load(open(path))
+    if r["replay"].get("acl_case"):
+        ok, outs, _, log = common.run_go_cases(ctx, GO_ACL, [r["replay"]["acl_case"]], tag="replay")
+        print(json.dumps(outs, indent=1)[:4000])
+        return 0 if outs and outs[0].get("ok") else 1
     c = r["replay"].get("case")
     if not c:
         print("replay file names a broken obligation/correspondence, no concrete input:", r["what"])
